@@ -241,6 +241,7 @@ class Driver(object):
             t = W.tape
             if first:
                 c = 0
+                first = False
             else:
                 c = t.weighted([14, 3, 1, 1, 1])
             if c == 0:
